@@ -17,17 +17,61 @@ let int_of_n (x : n) : int = match x with N0 -> 0 | Npos p -> int_of_pos p
 let z_of_int (i : int) : z = if i = 0 then Z0 else if i > 0 then Zpos (pos_of_int i) else Zneg (pos_of_int (-i))
 let int_of_z (x : z) : int = match x with Z0 -> 0 | Zpos p -> int_of_pos p | Zneg p -> - (int_of_pos p)
 
+(* node values are i64 in the harness: the full range goes through Int64 (an OCaml int has 63 bits) *)
+let rec pos_of_u64 (i : int64) : positive =
+  if Int64.equal i 1L || Int64.equal i 0L then XH
+  else if Int64.equal (Int64.logand i 1L) 0L then XO (pos_of_u64 (Int64.shift_right_logical i 1))
+  else XI (pos_of_u64 (Int64.shift_right_logical i 1))
+let rec u64_of_pos (p : positive) : int64 =
+  match p with XH -> 1L | XO q -> Int64.shift_left (u64_of_pos q) 1 | XI q -> Int64.logor (Int64.shift_left (u64_of_pos q) 1) 1L
+let z_of_str (s : string) : z =
+  let i = Int64.of_string s in
+  if Int64.equal i 0L then Z0 else if Int64.compare i 0L > 0 then Zpos (pos_of_u64 i) else Zneg (pos_of_u64 (Int64.neg i))
+let zstr (x : z) : string =
+  match x with Z0 -> "0" | Zpos p -> Int64.to_string (u64_of_pos p) | Zneg p -> Int64.to_string (Int64.neg (u64_of_pos p))
+
 let keqb (a : n) (b : n) : bool = N.eqb a b
 
 type hp = (n, z, n) heap
 
 let b2i b = if b then 1 else 0
 
+(* keys and edge values are u64 *)
+let u64_of_n (x : n) : int64 = match x with N0 -> 0L | Npos p -> u64_of_pos p
+let ncmp (a : n) (b : n) : int = Int64.unsigned_compare (u64_of_n a) (u64_of_n b)
+let nstr (x : n) : string = match x with N0 -> "0" | Npos p -> Printf.sprintf "%Lu" (u64_of_pos p)
+
 let key_str (h : hp) (u : nat) : string =
-  match keyof h u with Some k -> string_of_int (int_of_n k) | None -> "?"
+  match keyof h u with Some k -> nstr k | None -> "?"
 
 let fmt_edge (h : hp) (s : nat) (t : nat) (e : n) : string =
-  Printf.sprintf "(%s>%s:%d)" (key_str h s) (key_str h t) (int_of_n e)
+  Printf.sprintf "(%s>%s:%s)" (key_str h s) (key_str h t) (nstr e)
+
+(* decimal literal of any length -> Z (None when it is not an optionally signed run of digits) *)
+let z_of_dec (s : string) : z option =
+  let len = String.length s in
+  let neg = len > 0 && s.[0] = '-' in
+  let start = if neg || (len > 0 && s.[0] = '+') then 1 else 0 in
+  if len - start <= 0 then None
+  else if not (String.for_all (fun ch -> ch >= '0' && ch <= '9') (String.sub s start (len - start))) then None
+  else begin
+    let d = Array.init (len - start) (fun i -> Char.code s.[start + i] - 48) in
+    let is_zero () = Array.for_all (fun x -> x = 0) d in
+    let bits = ref [] in   (* least significant first *)
+    while not (is_zero ()) do
+      bits := (d.(Array.length d - 1) land 1) :: !bits;
+      let carry = ref 0 in
+      Array.iteri (fun i x -> let cur = !carry * 10 + x in d.(i) <- cur / 2; carry := cur mod 2) d
+    done;
+    (* !bits is most significant first *)
+    match !bits with
+    | [] -> Some Z0
+    | _ :: rest ->
+        let p = List.fold_left (fun acc b -> if b = 1 then XI acc else XO acc) XH rest in
+        Some (if neg then Zneg p else Zpos p)
+  end
+let rec pos_len (p : positive) : int = match p with XH -> 1 | XO q | XI q -> 1 + pos_len q
+let rec pos_is_pow2 (p : positive) : bool = match p with XH -> true | XO q -> pos_is_pow2 q | XI _ -> false
 
 let ids (h : hp) : nat list =
   let rec go i n = if i >= n then [] else nat_of_int i :: go (i + 1) n in
@@ -38,8 +82,8 @@ let snap_d (h : hp) : string =
   Buffer.add_string b "snap";
   List.iter (fun u ->
     let k = key_str h u in
-    let v = match valof h u with Some v -> int_of_z v | None -> 0 in
-    Buffer.add_string b (Printf.sprintf " [%s %d out" k v);
+    let v = match valof h u with Some v -> zstr v | None -> "0" in
+    Buffer.add_string b (Printf.sprintf " [%s %s out" k v);
     List.iter (fun (t, e) -> Buffer.add_string b (fmt_edge h u t e)) (h.outs u);
     Buffer.add_string b " in";
     List.iter (fun (s, e) -> Buffer.add_string b (fmt_edge h s u e)) (h.ins u);
@@ -53,8 +97,8 @@ let snap_u (h : hp) : string =
   Buffer.add_string b "snap";
   List.iter (fun u ->
     let k = key_str h u in
-    let v = match valof h u with Some v -> int_of_z v | None -> 0 in
-    Buffer.add_string b (Printf.sprintf " [%s %d adj" k v);
+    let v = match valof h u with Some v -> zstr v | None -> "0" in
+    Buffer.add_string b (Printf.sprintf " [%s %s adj" k v);
     List.iter (fun (t, e) -> Buffer.add_string b (fmt_edge h u t e)) (adj_u h u);
     Buffer.add_string b (Printf.sprintf " dg=%d o=%d]"
       (int_of_nat (degree_u h u)) (b2i (is_orphan h u)))) (ids h);
@@ -114,7 +158,7 @@ let log_str (o : n outcome) : string =
 
 let parse_op (st : string array) (at : int) : (n, z, n) op option =
   match st.(at) with
-  | "new" -> Some (ONew (n_of_int (ios st.(at+1)), z_of_int (ios st.(at+2))))
+  | "new" -> Some (ONew (n_of_int (ios st.(at+1)), z_of_str st.(at+2)))
   | "con" -> Some (OConnect (nat_of_int (ios st.(at+1)), nat_of_int (ios st.(at+2)), n_of_int (ios st.(at+3))))
   | "try" -> Some (OTryConnect (nat_of_int (ios st.(at+1)), nat_of_int (ios st.(at+2)), n_of_int (ios st.(at+3))))
   | "dis" -> Some (ODisconnect (nat_of_int (ios st.(at+1)), n_of_int (ios st.(at+2))))
@@ -181,18 +225,18 @@ let order_str (o : n list) : string =
 let keys_of (h : hp) (l : nat list) : string = String.concat " " (List.map (key_str h) l)
 
 let graph_snap (directed : bool) (h : hp) (g : gr) : string =
-  let ms = List.sort (fun (a, _) (b, _) -> compare (int_of_n a) (int_of_n b)) g in
+  let ms = List.sort (fun (a, _) (b, _) -> ncmp a b) g in
   let b = Buffer.create 128 in
   List.iter (fun (k, u) ->
-    let v = match valof h u with Some v -> int_of_z v | None -> 0 in
+    let v = match valof h u with Some v -> zstr v | None -> "0" in
     if directed then begin
-      Buffer.add_string b (Printf.sprintf "[%d %d out" (int_of_n k) v);
+      Buffer.add_string b (Printf.sprintf "[%s %s out" (nstr k) v);
       List.iter (fun (t, e) -> Buffer.add_string b (fmt_edge h u t e)) (h.outs u);
       Buffer.add_string b " in";
       List.iter (fun (s, e) -> Buffer.add_string b (fmt_edge h s u e)) (h.ins u);
       Buffer.add_string b "]"
     end else begin
-      Buffer.add_string b (Printf.sprintf "[%d %d adj" (int_of_n k) v);
+      Buffer.add_string b (Printf.sprintf "[%s %s adj" (nstr k) v);
       List.iter (fun (t, e) -> Buffer.add_string b (fmt_edge h u t e)) (adj_u h u);
       Buffer.add_string b "]"
     end) ms;
@@ -208,9 +252,9 @@ let parse_value (toks : string list) : value =
     | "f" :: r -> (VBool false, r)
     | t :: r ->
         if String.length t > 0 && t.[0] = 'i' then
-          (match int_of_string_opt (String.sub t 1 (String.length t - 1)) with
-           | Some i -> (VInt (z_of_int i), r)
-           | None -> (VOther, r))      (* does not fit an OCaml int: out of range for u64/i64 too *)
+          (match z_of_dec (String.sub t 1 (String.length t - 1)) with
+           | Some z -> (VInt z, r)
+           | None -> (VOther, r))
         else (VOther, r)
     | [] -> (VNull, [])
   and many = function
@@ -223,9 +267,18 @@ let parse_value (toks : string list) : value =
     | l -> let (k, r) = one l in let (v, r2) = one r in let (vs, r') = manym r2 in ((k, v) :: vs, r') in
   fst (one toks)
 
+(* the ranges serde enforces for the harness's field types: u64 keys / edge values, i64 node values *)
 let dec_u64 (v : value) : n option =
-  match v with VInt z -> let i = int_of_z z in if i >= 0 then Some (n_of_int i) else None | _ -> None
-let dec_i64 (v : value) : z option = match v with VInt z -> Some z | _ -> None
+  match v with
+  | VInt Z0 -> Some N0
+  | VInt (Zpos p) -> if pos_len p <= 64 then Some (Npos p) else None
+  | _ -> None
+let dec_i64 (v : value) : z option =
+  match v with
+  | VInt Z0 -> Some Z0
+  | VInt (Zpos p) -> if pos_len p <= 63 then Some (Zpos p) else None
+  | VInt (Zneg p) -> if pos_len p <= 63 || (pos_len p = 64 && pos_is_pow2 p) then Some (Zneg p) else None
+  | _ -> None
 
 let dot_tokens (h : hp) (l : n dotstmt list) (ga : int) (na : int) (ea : int) : string =
   let tok = function
@@ -233,8 +286,8 @@ let dot_tokens (h : hp) (l : n dotstmt list) (ga : int) (na : int) (ea : int) : 
     | NodeStmt (u, a) ->
         if not a then "N:" ^ key_str h u
         else if na = 1 then Printf.sprintf "N:%s:[label=\"n%s\"]" (key_str h u) (key_str h u)
-        else Printf.sprintf "N:%s:[label=\"n%s\"][v=\"%d\"]" (key_str h u) (key_str h u)
-               (match valof h u with Some v -> int_of_z v | None -> 0)
+        else Printf.sprintf "N:%s:[label=\"n%s\"][v=\"%s\"]" (key_str h u) (key_str h u)
+               (match valof h u with Some v -> zstr v | None -> "0")
     | EdgeStmt (u, v, e, a) ->
         if not a then Printf.sprintf "E:%s>%s" (key_str h u) (key_str h v)
         else Printf.sprintf "E:%s>%s:[w=\"%d\"]" (key_str h u) (key_str h v) (int_of_n e) in
@@ -464,8 +517,8 @@ let run_case (oc : out_channel) (c : case) : unit =
       | "gser" ->
           let (ns, es) = decompose keqb !h (getg (ios st.(1))) order in
           Printf.sprintf "%s doc [%s] [%s]" (order_str order)
-            (String.concat "" (List.map (fun (k, v) -> Printf.sprintf "[%d %d]" (int_of_n k) (int_of_z v)) ns))
-            (String.concat "" (List.map (fun ((a, b), e) -> Printf.sprintf "[%d %d %d]" (int_of_n a) (int_of_n b) (int_of_n e)) es))
+            (String.concat "" (List.map (fun (k, v) -> Printf.sprintf "[%s %s]" (nstr k) (zstr v)) ns))
+            (String.concat "" (List.map (fun ((a, b), e) -> Printf.sprintf "[%s %s %s]" (nstr a) (nstr b) (nstr e)) es))
       | "grt" ->
           let (ns, es) = decompose keqb !h (getg (ios st.(1))) order in
           (match rebuild keqb ns es with
@@ -529,7 +582,7 @@ let run_case (oc : out_channel) (c : case) : unit =
           (match deserialize keqb dec_u64 dec_i64 dec_u64 (parse_value toks) with
            | DOk (h2, g2) -> "de ok " ^ graph_snap directed h2 g2
            | DErr -> "de err")
-      | "new" -> apply (ONew (n_of_int (ios st.(1)), z_of_int (ios st.(2))))
+      | "new" -> apply (ONew (n_of_int (ios st.(1)), z_of_str st.(2)))
       | "con" -> apply (OConnect (nat_of_int (ios st.(1)), nat_of_int (ios st.(2)), n_of_int (ios st.(3))))
       | "try" -> apply (OTryConnect (nat_of_int (ios st.(1)), nat_of_int (ios st.(2)), n_of_int (ios st.(3))))
       | "dis" -> apply (ODisconnect (nat_of_int (ios st.(1)), n_of_int (ios st.(2))))
